@@ -21,7 +21,7 @@ from multidict import CIMultiDict, CIMultiDictProxy
 class Wire:
     """one HTTP request as seen by the simulated cluster"""
 
-    __slots__ = ("seq", "client_id", "method", "path", "query", "body", "t_send", "t_recv", "status", "outcome", "delay", "proc", "resp_body", "tag")
+    __slots__ = ("seq", "client_id", "method", "path", "query", "body", "t_send", "t_recv", "t_headers", "status", "outcome", "delay", "body_delay", "proc", "resp_body", "tag")
 
     def __init__(self):
         self.t_recv = None
@@ -35,21 +35,31 @@ class Wire:
 
 
 class Outcome:
-    __slots__ = ("delay", "kind", "status", "body")
+    __slots__ = ("delay", "kind", "status", "body", "body_delay")
 
-    def __init__(self, delay=0.0, kind="ok", status=200, body=None):
-        self.delay = delay
+    def __init__(self, delay=0.0, kind="ok", status=200, body=None, body_delay=0.0):
+        self.delay = delay  # until the status line and the headers have arrived
+        self.body_delay = body_delay  # from then until the last chunk of the body has arrived
         self.kind = kind  # ok | status | conn-error | timeout | hang
         self.status = status
         self.body = body
 
 
 class _Reader(aiohttp.streams.EmptyStreamReader):
-    def __init__(self, data: bytes):
+    def __init__(self, data: bytes, wire=None, es=None):
         super().__init__()
         self._data = data
+        self._wire = wire
+        self._es = es
 
     async def read(self, n: int = -1) -> bytes:
+        w = self._wire
+        if w is not None and w.body_delay:
+            # the body is streamed: its last chunk arrives some time after the headers
+            try:
+                await asyncio.sleep(w.body_delay)
+            finally:
+                w.t_recv = self._es.clock.now
         return self._data
 
 
@@ -117,6 +127,7 @@ class SimES:
         w.proc = self.clock.proc.name
         out = self.policy(w)
         w.delay = out.delay
+        w.body_delay = out.body_delay if out.kind in ("ok", "status") else 0.0
         w.outcome = out.kind
         w.status = out.status if out.kind in ("ok", "status") else None
         if out.kind in ("ok", "status"):
@@ -131,6 +142,7 @@ class SimES:
 
     def on_done(self, w: Wire):
         w.t_recv = self.clock.now
+        w.t_headers = self.clock.now
         self.inflight -= 1
         if self.on_event:
             self.on_event("recv", w)
@@ -174,7 +186,7 @@ def _patched_start():
         if w.outcome == "timeout":
             raise asyncio.TimeoutError()
         self._headers = CIMultiDictProxy(CIMultiDict({"content-type": "application/json"}))
-        self.content = _Reader(w.resp_body)
+        self.content = _Reader(w.resp_body, w, es)
         self.status = w.status
         self.reason = "OK"
         return self
